@@ -7,7 +7,7 @@ Open Scope Z_scope.
 
 Global Opaque idle_fallback_read rhdr_fallback_read whole_set_guard_equal ltls_timeout_guarded
   mitm_timeout_guarded mitm_peek_deadline pp_timeout_closes_conn serve_pre_go_calls
-  handleloop_pre_handshake_calls pp_blocking_methods.
+  handleloop_pre_handshake_calls pp_blocking_methods pp_early pp_touch_accept pp_touch_goroutine.
 
 Lemma arm_pos d t : arm d t = option_map (Z.add t) (pos d).
 Proof. unfold arm, pos. destruct (0 <? d); reflexivity. Qed.
@@ -20,6 +20,12 @@ Proof. reflexivity. Qed.
 
 Lemma omin_none_r a : omin a None = a.
 Proof. destruct a; reflexivity. Qed.
+
+(* discharge a goal whose premises contain an equation between two different phases, looking at
+   nothing else (in particular not at the value of table-derived constants) *)
+Ltac dphase :=
+  try (let Hx := fresh in intro Hx; discriminate Hx);
+  try match goal with Hx : @eq phase _ _ |- _ => discriminate Hx end.
 
 Section OneConnection.
 Variable c : cfg.
@@ -58,18 +64,20 @@ Qed.
 Lemma inv_read_request s : closed s = None -> inv (start_read_request c s).
 Proof.
   intros Hc _. unfold start_read_request; cbn [closed entered now fire_at ph rd limit eff_limit].
-  repeat split; try lia; try discriminate.
-  - apply arm_pos.
-  - intros f Hf. eapply arm_some; eauto.
+  repeat split; try lia.
+  all: dphase.
+  all: try apply arm_pos.
+  all: try (intros f Hf; eapply arm_some; eauto).
 Qed.
 
 Lemma inv_ltls s : closed s = None -> rd s = None -> inv (start_ltls c s).
 Proof.
   intros Hc Hrd _. unfold start_ltls; cbn [closed entered now fire_at ph rd ctxd limit eff_limit].
   rewrite Hrd, omin_none_r.
-  repeat split; try lia; try discriminate.
-  - apply arm_pos.
-  - intros f Hf. eapply arm_some; eauto.
+  repeat split; try lia.
+  all: dphase.
+  all: try apply arm_pos.
+  all: try (intros f Hf; eapply arm_some; eauto).
 Qed.
 
 Lemma inv_after_accept s : closed s = None -> rd s = None -> inv (after_accept c s).
@@ -85,20 +93,37 @@ Proof.
   - destruct pp_early eqn:Ee.
     + intros _. cbn [closed entered now fire_at ph rd ctxd ppd limit eff_limit]. rewrite Ee.
       unfold pp_timer. rewrite omin_none_r.
-      repeat split; try lia; try discriminate; try reflexivity.
-      * apply arm_pos.
-      * intros f Hf. eapply arm_some; eauto.
+      repeat split; try lia.
+      all: dphase.
+      all: try apply arm_pos.
+      all: try (intros f Hf; eapply arm_some; eauto).
     + intros _.
       assert (Hl : lazy_ok (mkst 0 PPHdr (rd (after_accept c s_init)) (ctxd (after_accept c s_init)) (pp_timer c 0) 0 None
                                  (ph (after_accept c s_init)))).
       { unfold lazy_ok, after_accept, start_ltls, start_read_request, pp_timer.
         destruct (c_has_tls c); cbn [nxt ppd ctxd rd entered limit now s_init ph];
-          (split; [auto|]); (split; [apply arm_pos|]); (split; [|intros; try discriminate; reflexivity]).
+          (split; [auto|]); (split; [apply arm_pos|]); (split; [|intros; try reflexivity; try (match goal with Hx : _ = PIdle |- _ => discriminate Hx end)]).
         - rewrite omin_none_r. apply arm_pos.
         - cbn. apply arm_pos. }
       destruct Hl as (Hn & Hp & Ho & Hc0).
-      cbn [closed entered now fire_at ph rd ctxd ppd limit eff_limit nxt] in *. rewrite Ee.
-      repeat split; try lia; try discriminate; try assumption.
+      cbn [nxt ppd ctxd rd entered] in Hn, Hp, Ho, Hc0.
+      assert (Heq : omin (pp_timer c 0) (omin (ctxd (after_accept c s_init)) (rd (after_accept c s_init))) =
+                    option_map (Z.add 0) (omin (limit c PPHdr) (limit c (ph (after_accept c s_init))))).
+      { rewrite Hp, Ho. exact (omin_map 0 _ _). }
+      assert (Hpos : forall f, omin (pp_timer c 0) (omin (ctxd (after_accept c s_init)) (rd (after_accept c s_init))) = Some f -> 0 < f).
+      { intros f Hf. rewrite Heq in Hf.
+        assert (P1 : forall x, limit c PPHdr = Some x -> 0 < x).
+        { cbn [limit]. unfold pos. intros x. destruct (0 <? _) eqn:E; [|intros H; inversion H]. intros H; inversion H; subst. apply Z.ltb_lt in E. assumption. }
+        assert (P2 : forall x, limit c (ph (after_accept c s_init)) = Some x -> 0 < x).
+        { unfold after_accept, start_ltls, start_read_request. destruct (c_has_tls c); cbn [ph limit]; unfold pos;
+            intros x; (destruct (0 <? _) eqn:E; [|intros H; inversion H]); intros H; inversion H; subst; apply Z.ltb_lt in E; assumption. }
+        destruct (limit c PPHdr) as [a|], (limit c (ph (after_accept c s_init))) as [e|];
+          cbn in Hf; inversion Hf; subst;
+          try (specialize (P1 _ eq_refl)); try (specialize (P2 _ eq_refl)); lia. }
+      unfold inv, eff_limit, fire_at. cbn [closed entered now ph rd ctxd ppd nxt]. rewrite Ee.
+      split; [lia|]. split; [exact Heq|]. split; [exact Hpos|].
+      split; [intros _ Hx; inversion Hx|]. split; [intros Hx; inversion Hx|].
+      intros _ _. unfold lazy_ok. cbn [nxt ppd ctxd rd entered]. repeat split; assumption.
   - apply inv_after_accept; reflexivity.
 Qed.
 
@@ -111,9 +136,10 @@ Qed.
 Lemma inv_head_start s : closed s = None -> inv (head_start c s).
 Proof.
   intros Hc _. unfold head_start; cbn [closed entered now fire_at ph rd limit eff_limit].
-  repeat split; try lia; try discriminate.
-  - apply arm_pos.
-  - intros f Hf. eapply arm_some; eauto.
+  repeat split; try lia.
+  all: dphase.
+  all: try apply arm_pos.
+  all: try (intros f Hf; eapply arm_some; eauto).
 Qed.
 
 (* with ReadTimeout = 0 the read deadline is cleared once the head is complete *)
@@ -151,9 +177,10 @@ Proof.
   intros Hc Hrd _. unfold connect_done. rewrite (rd_after_head_none s Hrd).
   destruct (c_mitm_on c); cbn [closed entered now fire_at ph rd limit eff_limit].
   - destruct mitm_peek_deadline.
-    + repeat split; try lia; try discriminate.
-      * apply arm_pos.
-      * intros f Hf. eapply arm_some; eauto.
+    + repeat split; try lia.
+      all: dphase.
+      all: try apply arm_pos.
+      all: try (intros f Hf; eapply arm_some; eauto).
     + repeat split; try lia; try discriminate.
   - repeat split; try lia; try discriminate.
 Qed.
@@ -167,9 +194,10 @@ Proof.
   assert (Hrd : (if mitm_peek_deadline then None else rd s) = None).
   { destruct mitm_peek_deadline; [reflexivity|]. rewrite Hf. reflexivity. }
   rewrite Hrd, omin_none_r.
-  repeat split; try lia; try discriminate.
-  - apply arm_pos.
-  - intros f Hf'. eapply arm_some; eauto.
+  repeat split; try lia.
+  all: dphase.
+  all: try apply arm_pos.
+  all: try (intros f Hf'; eapply arm_some; eauto).
 Qed.
 
 Lemma closed_set_now t s : closed (set_now t s) = closed s. Proof. reflexivity. Qed.
@@ -219,8 +247,8 @@ Proof.
         { apply (omin_lt (ppd s)). intros f Hf'. apply Hlt. rewrite Hfa. assumption. }
         intros _. unfold inv, eff_limit, fire_at, lazy_ok. cbn [closed entered now ph rd ctxd ppd nxt].
         destruct Hn as [Hn|Hn]; rewrite Hn in *; cbn [limit].
-        -- repeat split; try assumption; try discriminate.
-        -- rewrite (Hc0 eq_refl) in *. cbn [omin] in *. repeat split; try assumption; try discriminate.
+        -- repeat split; try assumption; dphase.
+        -- rewrite (Hc0 eq_refl) in *. cbn [omin] in *. repeat split; try assumption; dphase.
     + apply inv_read_request. assumption.
     + apply inv_head_done. assumption.
     + apply inv_head_done. assumption.
